@@ -117,6 +117,10 @@ class PathStats:
 _DEP_CONSTS = {'parry2d_f64::math::DIM': 2, 'parry2d_f64::math::SIMD_WIDTH': 4, 'parry3d_f64::math::DIM': 3, 'parry3d_f64::math::SIMD_WIDTH': 4}
 
 
+# enums of dependencies whose values cross into engeom's code (variant order = discriminant)
+_DEP_ENUMS = {'SegmentPointLocation': ['OnVertex', 'OnEdge'], 'TrianglePointLocation': ['OnVertex', 'OnEdge', 'OnFace', 'OnSolid'], 'SimdVisitStatus': ['MaybeContinue', 'ExitEarly']}
+
+
 class Engine:
     """one exploration of an entry function under a driver"""
 
@@ -985,7 +989,7 @@ class Engine:
         return None
 
     def variant_index(self, en):
-        vs = self.enum_variants(en.v, getattr(en, 'ty', None)) or self.enum_variants(en.v)
+        vs = _DEP_ENUMS.get(getattr(en, 'ty', None)) or self.enum_variants(en.v, getattr(en, 'ty', None)) or self.enum_variants(en.v)
         if vs is None:
             raise Unsupported('unknown enum variant ' + en.v)
         return vs.index(en.v)
